@@ -603,6 +603,9 @@ func runC05(r *rt.Runner) {
 		sb.WriteString("}\n")
 		// commented declarations with nothing inside and no options
 		sb.WriteString("\n// takes no parameters\nmessage NoParameters {}\n\n// nothing to say\n// on two lines\nmessage Silent {\n}\n\n// no methods yet\nservice NothingService {}\n\n// no values but zero\nenum OnlyZero {\n  // the zero\n  ONLY_ZERO_UNSPECIFIED = 0;\n}\n\n// holder\nmessage Outer {\n  // nested and empty\n  message InnerEmpty {}\n\n  // uses it\n  InnerEmpty inner = 1;\n\n  // and the top-level one\n  NoParameters none = 2;\n}\n")
+		// detached comments (section headings): before a declaration that has no leading comment of its own, before one
+		// that has, two in a row, inside a message, before an enum value and a method
+		sb.WriteString("\n// Section: detached heading\n\nmessage AfterDetached {\n  // detached inside the body\n\n  string a = 1;\n\n  // leading of b\n  string b = 2;\n}\n\n// detached one\n\n// detached two\n\n// leading of Both\nmessage Both {\n  string c = 1;\n}\n\n// Section: enums\n\nenum Sectioned {\n  SECTIONED_UNSPECIFIED = 0;\n\n  // detached before a value\n\n  SECTIONED_ONE = 1;\n}\n\n// Section: services\n\nservice SectionedService {\n  // detached before a method\n\n  rpc Do(Both) returns (Both) {}\n}\n")
 		src := map[string]string{"synth/v1/deep.proto": sb.String()}
 		ct, err := compileProtoText(src)
 		if err != nil {
